@@ -40,6 +40,8 @@ type c04Case struct {
 	Second                *c04Case `json:",omitempty"` // pair: a second term of the same expression
 	Def                   string   `json:",omitempty"` // DefaultDiceSideExpr for this case (faceless dice: the Y of the case)
 	PrevDef               string   `json:",omitempty"` // a faceless die was rolled on the same VM under this earlier setting
+	Extra                 int      `json:",omitempty"` // dice of one side drawn by nested rolls inside the term's own arguments, before the term's dice
+	Script                int      `json:",omitempty"` // scripted faces: the first Script draws show the top face (explode), all later ones 1
 }
 
 func ip(i int) *int { return &i }
@@ -124,6 +126,19 @@ func c04Enumerate(tier string, seed int64, emit func(string, any)) {
 								fc.PrevDef = strconv.Itoa(y + 2)
 							}
 							emit("faceless", fc)
+						}
+						if x >= 1 && y >= 1 && (mode != 0 || m.min != nil || m.max != nil) && variant%2 == 1 {
+							// the term's own arguments contain rolls (dice of one side, so their value is known): sides written as (Yd1),
+							// the modifier's number as (Nd1) / ((N-1)d1+1)
+							tail := src[len(numTxt(x)+d+numTxt(y)):]
+							nsrc := numTxt(x) + d + "(" + strconv.Itoa(y) + "d1)" + tail
+							emit("nested arguments", c04Case{Kind: "common", Src: nsrc, X: x, Y: y, Mode: mode, N: nn, Min: m.min, Max: m.max, Extra: y})
+							if mode != 0 && n != 1000 && n >= 1 {
+								nsrc2 := numTxt(x) + d + numTxt(y) + name + "(" + strconv.Itoa(n) + "d1)"
+								if m.min == nil && m.max == nil {
+									emit("nested arguments", c04Case{Kind: "common", Src: nsrc2, X: x, Y: y, Mode: mode, N: nn, Extra: n})
+								}
+							}
 						}
 					}
 				}
@@ -242,6 +257,15 @@ func c04Enumerate(tier string, seed int64, emit func(string, any)) {
 	}
 	for _, crit := range []int{2, 7, 10, 11} {
 		emit("dc", c04Case{Kind: "dc", Src: fmt.Sprintf("2c%d", crit), Pool: 2, Add: crit, Sides: 10, MaxPts: 3, MaxDev: -1})
+	}
+	// long explosions (faces scripted: the first K draws explode, the rest do not): the dice listing stops at 100 dice,
+	// all-or-nothing
+	for _, pool := range []int{1, 2, 7, 14, 15} {
+		for _, k := range []int{40, 85, 97, 98, 99, 100, 101, 130} {
+			emit("long explosions", c04Case{Kind: "wod", Src: fmt.Sprintf("%da2", pool), Pool: pool, Add: 2, Sides: 10, Thr: 8, GE: true, Script: k})
+			emit("long explosions", c04Case{Kind: "wod", Src: fmt.Sprintf("%da2m10q3", pool), Pool: pool, Add: 2, Sides: 10, Thr: 3, GE: false, Script: k})
+			emit("long explosions", c04Case{Kind: "dc", Src: fmt.Sprintf("%dc2", pool), Pool: pool, Add: 2, Sides: 10, Script: k})
+		}
 	}
 	// large values: default face 1, <= MaxDev deviations among the first MaxPts dice
 	bigX := []int{15, 100, 101, 1000}
@@ -421,7 +445,15 @@ func c04Run(raw json.RawMessage) harn.Result {
 	var cur *choice.Ctx
 	ds.VerifStepHook = nil
 	ds.VerifRollHook = func(src *rand.PCGSource, sides ds.IntType) (ds.IntType, bool) {
-		f := faceOf(cur, int64(sides))
+		var f int64
+		if c.Script > 0 {
+			f = 1
+			if len(faces) < c.Script {
+				f = int64(sides)
+			}
+		} else {
+			f = faceOf(cur, int64(sides))
+		}
 		faces = append(faces, int(f))
 		sidesSeen = append(sidesSeen, int64(sides))
 		return ds.IntType(f), true
@@ -476,7 +508,10 @@ func c04Run(raw json.RawMessage) harn.Result {
 			res.Stats["runs_truncated"]++
 		}
 		if c.Kind == "common" {
-			for _, sd := range sidesSeen {
+			for i, sd := range sidesSeen {
+				if i < c.Extra {
+					continue // dice of the nested rolls (checked below)
+				}
 				if sd != int64(c.Y) {
 					viol("C04:sides", fmt.Sprintf("a die of this term was rolled with %d sides, the term has %d (DefaultDiceSideExpr %q, earlier %q)", sd, c.Y, c.Def, c.PrevDef))
 					break
@@ -511,6 +546,20 @@ func c04Run(raw json.RawMessage) harn.Result {
 			}
 		}
 		f := append([]int{}, faces...)
+		if c.Extra > 0 {
+			if len(f) < c.Extra {
+				viol("C04:dice-count:common", fmt.Sprintf("%d dice rolled, the nested rolls alone need %d", len(f), c.Extra))
+				return
+			}
+			for i := 0; i < c.Extra; i++ {
+				if sidesSeen[i] != 1 {
+					viol("C04:sides", fmt.Sprintf("nested die #%d rolled with %d sides, it has 1", i+1, sidesSeen[i]))
+					return
+				}
+			}
+			f = f[c.Extra:]
+			sidesSeen = sidesSeen[c.Extra:]
+		}
 		switch c.Kind {
 		case "common":
 			if len(f) != c.X {
@@ -658,6 +707,8 @@ func c04Run(raw json.RawMessage) harn.Result {
 					}
 					pool = next
 				}
+			} else if strings.Contains(text, "{") {
+				viol("C04:"+c.Kind+"-text", fmt.Sprintf("%d dice from a pool of %d: beyond the listing limits (pool < 15, <= 100 dice) no dice may be listed at all, got %q", total, c.Pool, trunc(text, 120)))
 			}
 		}
 	})
@@ -708,13 +759,21 @@ func trunc(s string, n int) string {
 
 // c04FuncPath drives the exported Roll* functions over the same face space.
 func c04FuncPath(c c04Case, res *harn.Result, viol func(sig, what string)) {
-	if c.Kind == "chain" || c.Kind == "pair" || (c.Kind == "coc" && c.N < 0) {
+	if c.Kind == "chain" || c.Kind == "pair" || (c.Kind == "coc" && c.N < 0) || c.Extra > 0 {
 		return
 	}
 	var faces []int
 	var cur *choice.Ctx
 	ds.VerifRollHook = func(src *rand.PCGSource, sides ds.IntType) (ds.IntType, bool) {
-		f := faceOf(cur, int64(sides))
+		var f int64
+		if c.Script > 0 {
+			f = 1
+			if len(faces) < c.Script {
+				f = int64(sides)
+			}
+		} else {
+			f = faceOf(cur, int64(sides))
+		}
 		faces = append(faces, int(f))
 		return ds.IntType(f), true
 	}
@@ -764,7 +823,6 @@ func c04FuncPath(c c04Case, res *harn.Result, viol func(sig, what string)) {
 			viol(site, fmt.Sprintf("panic in exported Roll function with faces %v", trimInts(faces)))
 			return
 		}
-		_ = text
 		f := faces
 		want := 0
 		switch c.Kind {
@@ -782,6 +840,9 @@ func c04FuncPath(c c04Case, res *harn.Result, viol func(sig, what string)) {
 		if want != got {
 			viol("C04:func:"+c.Kind, fmt.Sprintf("exported Roll function: faces %v: rule gives %d, got %d", trimInts(f), want, got))
 		}
+		if (c.Kind == "wod" || c.Kind == "dc") && (c.Pool >= 15 || len(f) > 100) && strings.Contains(text, "{") {
+			viol("C04:func:"+c.Kind+"-text", fmt.Sprintf("exported Roll function: %d dice from a pool of %d: beyond the listing limits no dice may be listed, got %q", len(f), c.Pool, trunc(text, 120)))
+		}
 	})
 	res.Stats["executions_func_path"] = st.Runs
 	ds.VerifRollHook = nil
@@ -790,7 +851,7 @@ func c04FuncPath(c c04Case, res *harn.Result, viol func(sig, what string)) {
 func init() {
 	harn.Register(&harn.Check{
 		ID:   "C04",
-		Rule: "each case is one dice term (parameter tuple + spelling); for it EVERY sequence of die faces is enumerated through the VerifRoll seam by choice-prefix DFS (large pools: default face 1 with a bounded number of deviations among the first MaxPts dice, reported as runs_truncated) on the VM syntax and on the exported Roll* function; oracle = independent rule functions (package rules) on the faces drawn + parser of the displayed dice; illegal tuples must error. A case is non-trivial by construction (it rolls or must be rejected); distinct by source text.",
+		Rule: "each case is one dice term (parameter tuple + spelling); for it EVERY sequence of die faces is enumerated through the VerifRoll seam by choice-prefix DFS (large pools: default face 1 with a bounded number of deviations among the first MaxPts dice, reported as runs_truncated) on the VM syntax and on the exported Roll* function; further strata: faceless dice (sides from DefaultDiceSideExpr, also after another setting was used on the VM), pairs of terms in one expression, rolls nested inside the term's own sides / modifier arguments (dice of one side), scripted long explosions around the 100-dice listing cut-off; oracle = independent rule functions (package rules) on the faces drawn + parser of the displayed dice; illegal tuples must error. A case is non-trivial by construction (it rolls or must be rejected); distinct by source text.",
 		Assume: []string{
 			"die faces are answered by the harness through VerifRoll; the generator arithmetic itself is C05's subject",
 			"min > max clamps follow the implementation order (max first, then min); docs do not define it",
